@@ -89,8 +89,10 @@ CLAIMED = {
              "step B ones to the carrier's grid supply factor; RED1/RED2 follow user > file > default; a prepared set is "
              "complete — energy_performance of ANY component list whose carriers have a grid factor in it never returns "
              "MissingFactor (C07_complete, through an exact analysis of the keys an evaluation looks up); preparing a "
-             "prepared set returns the identical list (C07_idempotent, also with the same user values); a carrier without "
-             "grid supply factor, or no grid electricity, is rejected with MissingFactor. Correspondence: prepared lists "
+             "prepared set returns the identical list (C07_idempotent, also with the same user values); a set with a carrier "
+             "without grid supply factor is rejected with MissingFactor (C07_rejects), every carrier of an accepted set has "
+             "one (C07_prepared_carriers_have_grid_factors), and a set that says nothing about electricity is accepted and "
+             "stays without electricity (C07_no_electricity_added; fix 1505fba). Correspondence: prepared lists "
              "compared exactly (order and values) with the model; all bullets re-evaluated on implementation outputs, plus "
              "random buildings over each accepted set's carriers.",
         design_ref="DESIGN.md §6 C07",
